@@ -71,8 +71,10 @@ def make_pair(rng, k):
                 continue
             moved = {}
             for col in rng.sample(geo.columnlist, rng.randint(1, geo.num_columns)):
-                bb = col.bounding_box
-                c = np.array(col.centroid) + np.array([rng.uniform(-0.42, 0.42) * (bb[1][0] - bb[0][0]), rng.uniform(-0.42, 0.42) * (bb[1][1] - bb[0][1])])
+                # towards one of its corners, at most 70 % of the way: inside the (convex) column, as a valid geometry's centre
+                # is (a centre outside its own column is what check() reports as a bad column)
+                vtx = rng.choice(col.node).pos
+                c = np.array(col.centroid) + rng.uniform(0.1, 0.7) * (np.array(vtx) - np.array(col.centroid))
                 col.centre = c
                 col.centre_specified = 1
                 moved[col.name] = [float(c[0]), float(c[1])]
